@@ -64,6 +64,19 @@ fn judge(c: &dyn BoxCase, l: &mut Local) {
             Err(e) => l.violations.push(mk(if large { "decode_of_64bit_header_form_failed" } else { "decode_of_reference_bytes_failed" }).obs(json!({"error": e, "input_hex": hex(&b[..b.len().min(400)])}))),
         }
     }
+    // (d) so does the box with any one of its descendants in the 64-bit header form, followed by another box
+    for (path, mut b) in c.ref_bytes_descendant_large() {
+        l.transitions += 1;
+        let own = b.len() as u64;
+        b.extend_from_slice(&[0, 0, 0, 8, b'f', b'r', b'e', b'e']);
+        match c.lib_decode_eq(&b) {
+            Ok((true, pos, _)) if pos == own => l.outcome("ok:descendant_with_64bit_header"),
+            Ok((eq, pos, shown)) => {
+                l.violations.push(mk("decode_with_descendant_in_64bit_header_form_differs").obs(json!({"descendant": path, "equal": eq, "position": pos, "len": own, "decoded": if shown.len() > 1200 { shown[..1200].to_string() } else { shown }, "input_hex": hex(&b[..b.len().min(400)])})));
+            }
+            Err(e) => l.violations.push(mk("decode_with_descendant_in_64bit_header_form_failed").obs(json!({"descendant": path, "error": e, "input_hex": hex(&b[..b.len().min(400)])}))),
+        }
+    }
     l.validated += 1;
     if l.violations.len() == before {
         l.outcome(&format!("ok:{}", t));
